@@ -14,6 +14,7 @@ import sys
 
 import ZODB.serialize as SER
 
+from zverif import pobj
 from zverif import templates as T
 from zverif.api import assume, check, fail, reached, untraced, choose, realize, note, traced
 from zverif.spec import Harness, shards
@@ -502,6 +503,178 @@ def h_multidb_refs(x0: bool, x1: bool, x2: bool, x3: bool, y0: bool, y1: bool, y
     reached()
 
 
+def h_export_import(e01: bool, e02: bool, e12: bool, e10: bool, e20: bool, e21: bool, sp: bool, storage: str) -> None:
+    """exportFile of the sub-graph below a node, importFile into another connection: the copy is an equal graph
+    (values, edges, sharing and cycles), made of new objects of the importing connection, and it commits and loads.
+    storage 'demo' declares blob support (the export then also looks for blob files); sp: the export is made
+    inside a transaction with a savepoint (the connection then reads through its savepoint store)."""
+    edges = {(0, 1): e01, (0, 2): e02, (1, 2): e12, (1, 0): e10, (2, 0): e20, (2, 1): e21}
+    with untraced():
+        import transaction
+        import ZODB
+        import ZODB.DemoStorage
+        env = T.Env()
+        if storage == 'demo':
+            s = ZODB.DemoStorage.DemoStorage(base=env.mappingstorage())
+        else:
+            s = env.filestorage() if storage == 'file' else env.mappingstorage()
+        db = ZODB.DB(s)
+        tm = transaction.TransactionManager()
+        c = db.open(tm)
+        nodes = [pobj.PObj(v=10 + i) for i in range(3)]
+        for (a, b), on in edges.items():
+            if on:
+                setattr(nodes[a], 'to%d' % b, nodes[b])
+        for i, n_ in enumerate(nodes):
+            c.root()['n%d' % i] = n_            # all three are stored, whatever the edges
+        tm.commit()
+        if sp:
+            c.root()['unrelated'] = 1
+            tm.savepoint()
+        f = io.BytesIO()
+        c.exportFile(nodes[0]._p_oid, f)
+        if sp:
+            tm.abort()
+        f.seek(0)
+        tm2 = transaction.TransactionManager()
+        c2 = db.open(tm2)
+        copy = c2.importFile(f)
+        c2.root()['copy'] = copy
+        try:
+            tm2.commit()
+        except Exception as ex:
+            fail('commit of an imported graph failed', type(ex).__name__, str(ex)[:120])
+        c3 = db.open(transaction.TransactionManager())
+        originals = set(n_._p_oid for n_ in nodes)
+        seen = {}
+
+        def walk(orig_i, cp, where):
+            if orig_i in seen:
+                check(seen[orig_i] is cp, 'sharing lost: two paths to one original lead to different copies', where)
+                return
+            seen[orig_i] = cp
+            try:
+                v = cp.v
+            except Exception as ex:
+                fail('imported graph has a reference that cannot be loaded', where, type(ex).__name__)
+            check(v == 10 + orig_i, 'imported node has another value', where, v)
+            check(cp._p_oid not in originals, 'imported node is not a new object', where)
+            for b in range(3):
+                has = edges.get((orig_i, b), False)
+                check(hasattr(cp, 'to%d' % b) == bool(has), 'imported node has other edges than the original', where, b)
+                if has:
+                    walk(b, getattr(cp, 'to%d' % b), where + '.to%d' % b)
+        walk(0, c3.root()['copy'], 'copy')
+        for cc in (c, c2, c3):
+            cc.close()
+        db.close()
+    reached()
+
+
+APP = 'zverif_app_module_c14'
+
+
+class _AppFinder:
+    """Import machinery stand-in for an application module that has changed since the data were stored."""
+
+    def __init__(self, mode):
+        self.mode = mode
+
+    def find_spec(self, name, path=None, target=None):
+        import importlib.machinery
+        if name != APP or self.mode == 'gone':
+            return None                      # -> ModuleNotFoundError
+        return importlib.machinery.ModuleSpec(name, self)
+
+    def create_module(self, spec):
+        return None
+
+    def exec_module(self, module):
+        if self.mode == 'refuses':
+            raise ImportError('the module refuses to load (a name it imports from elsewhere is gone)')
+        # mode 'renamed': the module loads, the classes are no longer in it
+
+
+def h_missing_class(mode: int, rewrite: bool, storage: str) -> None:
+    """Records of classes that cannot be found any more - module gone, module failing to import, class no longer in
+    the module (solver-chosen) - load as placeholders that keep the stored state; the rest of the graph is intact,
+    references can still be extracted, and writing the containing object again loses nothing."""
+    md = ['gone', 'refuses', 'renamed'][choose(mode, 3)]
+    with untraced():
+        import sys
+        import types
+        import persistent
+        import transaction
+        import ZODB
+        import ZODB.broken
+        from ZODB.interfaces import IBroken
+        from ZODB.serialize import referencesf
+        from ZODB.utils import load_current
+        env = T.Env()
+        s = env.filestorage() if storage == 'file' else env.mappingstorage()
+        m = types.ModuleType(APP)
+        Thing = type('Thing', (persistent.Persistent,), {'__module__': APP})
+        Part = type('Part', (object,), {'__module__': APP})
+        m.Thing, m.Part = Thing, Part
+        sys.modules[APP] = m
+        finder = _AppFinder(md)
+        try:
+            db = ZODB.DB(s)
+            tm = transaction.TransactionManager()
+            c = db.open(tm)
+            t = Thing()
+            t.name, t.n = 'thing', 7
+            p = Part()
+            p.label = 'plain part'
+            c.root()['thing'] = t
+            c.root()['part'] = p
+            c.root()['other'] = pobj.PObj(v=3)
+            tm.commit()
+            toid = t._p_oid
+            ooid = c.root()['other']._p_oid
+            c.close()
+            # the application changes
+            del sys.modules[APP]
+            sys.meta_path.insert(0, finder)
+            ZODB.broken.broken_cache.clear()
+            db2 = ZODB.DB(s)
+            tm2 = transaction.TransactionManager()
+            c2 = db2.open(tm2)
+
+            def look(conn, where):
+                try:
+                    r = conn.root()
+                    t2, p2 = r['thing'], r['part']
+                    st = dict(t2.__Broken_state__) if hasattr(t2, '__Broken_state__') and t2.__Broken_state__ else None
+                    if st is None:
+                        t2._p_activate()
+                        st = dict(t2.__Broken_state__ or {})
+                except Exception as ex:
+                    fail('graph with a class that cannot be found does not load (%s)' % where, md, type(ex).__name__, str(ex)[:120])
+                check(IBroken.providedBy(t2) and IBroken.providedBy(p2), 'object of a missing class is not a placeholder (%s)' % where, md)
+                check(t2._p_oid == toid, 'placeholder has another id (%s)' % where)
+                check(st == {'name': 'thing', 'n': 7}, 'placeholder of a persistent object lost its state (%s)' % where, md, st)
+                check(p2.__Broken_state__ == {'label': 'plain part'}, 'placeholder of a plain value lost its state (%s)' % where, md)
+                check(r['other'].v == 3 and r['other']._p_oid == ooid, 'rest of the graph damaged (%s)' % where)
+                return r
+            r = look(c2, 'first load')
+            refs = referencesf(load_current(s, r._p_oid)[0])
+            check(sorted(refs) == sorted([toid, ooid]), 'references extracted from a record with missing classes differ', md, refs)
+            if rewrite:
+                r['extra'] = 1
+                tm2.commit()
+                c3 = db2.open(transaction.TransactionManager())
+                look(c3, 'after the containing object was written again')
+                refs = referencesf(load_current(s, r._p_oid)[0])
+                check(sorted(refs) == sorted([toid, ooid]), 'references differ after the containing object was written again', md, refs)
+        finally:
+            if finder in sys.meta_path:
+                sys.meta_path.remove(finder)
+            sys.modules.pop(APP, None)
+            ZODB.broken.broken_cache.clear()
+    reached()
+
+
 HARNESSES = [
     Harness('referencesf', h_referencesf,
             decides='referencesf / get_refs return exactly the oids of the strong same-database references of a record, in '
@@ -521,6 +694,20 @@ HARNESSES = [
                                                              'ObjectReader.load_persistent/getGhost', 'referencesf'],
             quick=dict(timeout=150, shards=shards(explicit_add=[False, True], storage=['file'], kinds=[0, 13, 21]) + shards(explicit_add=[False], storage=['file'], kinds=[5], reset=[True])),
             thorough=dict(timeout=900, shards=shards(explicit_add=[False, True], storage=['file', 'mapping'], kinds=list(range(27))))),
+    Harness('missing_class', h_missing_class,
+            decides='a graph holding a persistent object and a plain value whose classes cannot be found any more (module gone / module '
+                    'fails to import / class no longer in the module) loads with placeholders that keep the stored state and id, the rest '
+                    'intact; references are still extracted; writing the containing object again loses nothing',
+            symbolic='kind of breakage (3), whether the containing object is written again', bounds='1 persistent + 1 plain object of missing classes',
+            oracle='stored state by construction', code=['broken.find_global', 'broken.Broken/PersistentBroken', 'ObjectReader._get_class/load_persistent', 'referencesf'],
+            quick=dict(timeout=60, shards=shards(storage=['file'])), thorough=dict(timeout=120, shards=shards(storage=['file', 'mapping']))),
+    Harness('export_import', h_export_import,
+            decides='exportFile of the sub-graph below a node + importFile into another connection gives an equal graph (values, edges, '
+                    'sharing, cycles) of new objects that commits and loads - also on a storage that declares blob support and inside a '
+                    'transaction with a savepoint',
+            symbolic='6 adjacency bits among 3 nodes, savepoint flag', bounds='3 nodes; storages file / demo (declares blob support)',
+            oracle='edge list by construction', code=['ExportImport.exportFile/importFile/_importDuringCommit', 'referencesf'],
+            quick=dict(timeout=100, shards=shards(storage=['file', 'demo'])), thorough=dict(timeout=300, shards=shards(storage=['file', 'mapping', 'demo']))),
     Harness('multidb_refs', h_multidb_refs,
             decides='every cross-database reference (all three reference formats: with class, class-less, inside plain containers) '
                     'loads as the object with that id in the named database - same class and state, one object per id per connection - '
